@@ -36,7 +36,9 @@ def run_impl(sc):
     websocket.enableTrace(bool(sc.get("trace")), handler=logging.NullHandler())
     evs = [("D", bytes.fromhex(e[1])) if e[0] == "D" else (e[0],) for e in sc["script"]]
     ws, s = connected_ws(evs, fire_cont_frame=bool(sc.get("fire")), skip_utf8_validation=bool(sc.get("skip")),
-                         get_mask_key=Keys(sc.get("keys") or []))
+                         get_mask_key=Keys(sc.get("keys") or []),
+                         # the documented enable_multithread=False (no locking) must behave exactly like the default
+                         **({"enable_multithread": False} if sc.get("nolock") else {}))
     obs = []
     rems = []
     marks = [len(s.log)]
